@@ -81,6 +81,12 @@ func c05MinimalCases() []c05Case {
 		// F9 fillslicefromstring-ptr-elem-panic
 		c05One(sl(ptr("int")), nil, c05Str("[1]")),
 		c05One(sl(ptr("int")), nil, c05Str("null")),
+		// F10 fillslicefromstring-null-elem-panic (found after F1..F9 were fixed)
+		c05One(sl(sc("bool")), nil, c05Str("[null]")),
+		c05One(sl(sc("int")), nil, c05Str("[1,null]")),
+		// F11 fillslicefromstring-nested-array-panic
+		c05One(sl(sl(sc("bool"))), nil, c05Str("[[]]")),
+		c05One(sl(sl(sc("int"))), nil, c05Str("[[1,2]]")),
 	}
 }
 
@@ -90,7 +96,8 @@ func c05MinimalCases() []c05Case {
 func c05DumpReplays(dir string) {
 	pick := map[int]string{0: "jsonnumber-overflow", 15: "setvalue-overflow", 20: "fillslice-nonslice-panic",
 		24: "fillslice-struct-elem-panic", 25: "fillslicevalue-object-elem-panic", 26: "generatemap-ptr-elem-panic",
-		29: "duration-number-panic", 31: "stringoption-number-options-panic", 34: "fillslicefromstring-ptr-elem-panic"}
+		29: "duration-number-panic", 31: "stringoption-number-options-panic", 34: "fillslicefromstring-ptr-elem-panic",
+		36: "fillslicefromstring-null-elem-panic", 38: "fillslicefromstring-nested-array-panic"}
 	cases := c05MinimalCases()
 	_ = os.MkdirAll(dir, 0o755)
 	for i, id := range pick {
